@@ -38,7 +38,6 @@ theorem t_notInterested (ae) : Spec (handleWire .notInterested ae) := by unfold 
 theorem t_cancel (ae i b l) : Spec (handleWire (.cancel i b l) ae) := by unfold handleWire; refine spec_get_bind (fun s => ?_); dsimp only; spec_auto2
 theorem t_port (ae p) : Spec (handleWire (.port p) ae) := by unfold handleWire; refine spec_get_bind (fun s => ?_); dsimp only; spec_auto2
 theorem t_suggest (ae p) : Spec (handleWire (.suggest p) ae) := by unfold handleWire; refine spec_get_bind (fun s => ?_); dsimp only; spec_auto2
-theorem t_allowedFast (ae p) : Spec (handleWire (.allowedFast p) ae) := by unfold handleWire; refine spec_get_bind (fun s => ?_); dsimp only; spec_auto2
 theorem t_haveNone (ae) : Spec (handleWire .haveNone ae) := by unfold handleWire; refine spec_get_bind (fun s => ?_); dsimp only; spec_auto2
 theorem t_ext0 (ae e) : Spec (handleWire (.ext0 e) ae) := by unfold handleWire; refine spec_get_bind (fun s => ?_); dsimp only; spec_auto2
 theorem t_pex (ae s a d) : Spec (handleWire (.pex s a d) ae) := by unfold handleWire; refine spec_get_bind (fun s => ?_); dsimp only; spec_auto2
@@ -117,6 +116,20 @@ theorem t_request (ae i b l) : Spec (handleWire (.request i b l) ae) := by
     rw [ok_bind, ok_get]
     dsimp only
     simp only [hinfo, Bool.not_false, Bool.true_or, ↓reduceIte]
+    refine (?_ : Spec _) c hi
+    spec_auto2
+
+theorem tG_allowedFast (ae i) : SpecG (handleWire (.allowedFast i) ae) := by
+  unfold handleWire; refine specG_get_bind (fun s => ?_); dsimp only; specg_auto
+
+theorem t_allowedFast (ae i) : Spec (handleWire (.allowedFast i) ae) := by
+  intro c hi
+  by_cases hinfo : c.s.info = true
+  · exact tG_allowedFast ae i c hi hinfo
+  · unfold handleWire
+    rw [ok_bind, ok_get]
+    dsimp only
+    simp only [hinfo, Bool.false_eq_true, ↓reduceIte]
     refine (?_ : Spec _) c hi
     spec_auto2
 
